@@ -49,6 +49,11 @@ class V:
     def __hash__(self):
         return hash(self.veq)
 
+    def __bool__(self):
+        # some registered values are falsy (empty-container-like components): nothing in the
+        # properties depends on the truth value of a registered object
+        return self.vid % 3 != 0
+
     def __call__(self, *objs):
         ids = [self.world.obj_id(o) for o in objs]
         self.world.calls.append((self.vid, ids))
